@@ -397,6 +397,109 @@ blockend `let old = self .status .insert(slot, FinalizationStatus::ImplicitlySki
         }
 @*/
 
+// ---------------------------------------------------------------- finding F24: a notarized block that is never finalized
+// The same two bodies once more with their "consensus safety violation" assertions as proof OBLIGATIONS (everywhere else
+// they are assumptions, see base_types.rs), on the states that are NO violation: below the finalized descendant the node
+// knows nothing but notarization certificates - of whatever block of the slot.  A notarized block that is never finalized
+// can have a notar-fallback sibling from which the finalized chain continues (an equivocating leader and a 60/40 split of
+// the notar votes suffice, Byzantine stake stays below 20%), so the ancestors must be finalized without tripping over it.
+/*@ extract src/consensus/pool/finality_tracker.rs :: impl FinalityTracker/fn handle_implicitly_finalized
+as handle_implicitly_finalized_past_notarized_siblings
+props C08 C07
+safety-asserts obligations
+rewrite*[R9] `implicitly_finalized.clone()` => `verif_clone_block_id(&implicitly_finalized)`
+rewrite[R9] `self.parents.get(&implicitly_finalized).cloned()` => `verif_cloned_block_id(self.parents.get(&implicitly_finalized))`
+rewrite[R4] `for slot in implicitly_finalized.0.future_slots() {` => `let mut verif_slot_it = implicitly_finalized.0; loop { verif_slot_it = verif_slot_it.next(); let slot = verif_slot_it;`
+rewrite[R2] `self.handle_implicitly_finalized(implicitly_finalized.0, parent, event);` => `self.handle_implicitly_finalized_past_notarized_siblings(implicitly_finalized.0, parent, event);`
+requires
+        old(self).wf_base(),
+        source_slot.0 > implicitly_finalized.0.0,
+        source_slot.0 <= old(self).highest_finalized_slot.0,
+        forall|s: Slot| s.0 < source_slot.0 ==> ((#[trigger] old(self).st(s)) is None || (old(self).st(s) matches Some(FinalizationStatus::Notarized(_)))),
+ensures
+        final(self).wf_base(),
+        final(self).parents@ == old(self).parents@,
+        final(self).highest_finalized_slot == old(self).highest_finalized_slot,
+        final(self).first_unpruned_slot == old(self).first_unpruned_slot,
+        forall|s: Slot| s.0 >= source_slot.0 ==> final(self).st(s) == #[trigger] old(self).st(s),
+        // [C08.notarized_sibling_of_the_finalized_chain_is_no_safety_violation C07.notarized_sibling_of_the_finalized_chain_is_no_safety_violation]
+        // no assertion fires (each is an obligation here) and the ancestor becomes finalized whatever block of its slot was notarized
+        implicitly_finalized.0.0 >= old(self).first_unpruned_slot.0 ==> fin_hash(final(self).st(implicitly_finalized.0)) == Some(implicitly_finalized.1),
+decreases source_slot.0
+loop 0
+        invariant_except_break
+            verif_slot_it.0 < source_slot.0,
+        invariant
+            pre == *old(self),
+            source_slot.0 > implicitly_finalized.0.0,
+            forall|s: Slot| s.0 < source_slot.0 ==> ((#[trigger] old(self).st(s)) is None || (old(self).st(s) matches Some(FinalizationStatus::Notarized(_)))),
+            self.wf_base(),
+            self.parents@ == old(self).parents@,
+            self.highest_finalized_slot == old(self).highest_finalized_slot,
+            self.first_unpruned_slot == old(self).first_unpruned_slot,
+            implicitly_finalized.0.0 >= self.first_unpruned_slot.0,
+            implicitly_finalized.0.0 <= verif_slot_it.0 <= source_slot.0,
+            source_slot.0 <= self.highest_finalized_slot.0,
+            forall|s: Slot| s.0 <= implicitly_finalized.0.0 || s.0 > verif_slot_it.0 || s.0 >= source_slot.0 ==> self.st(s) == #[trigger] old(self).st(s),
+        ensures
+            verif_slot_it.0 == source_slot.0,
+        decreases source_slot.0 - verif_slot_it.0,
+before `vassert(source_slot > implicitly_finalized.0);`
+        let ghost pre = *self;
+before `let old = self .status .insert(slot, FinalizationStatus::ImplicitlySkipped);`
+        let ghost g1 = *self;
+after `let old = self .status .insert(slot, FinalizationStatus::ImplicitlySkipped);`
+        proof {
+            assert forall|s: Slot| #[trigger] self.st(s) == (if s == slot { Some(FinalizationStatus::ImplicitlySkipped) } else { g1.st(s) }) by {}
+            assert(old == g1.st(slot));
+            assert(g1.st(slot) == pre.st(slot));
+        }
+before `let (slot, block_hash) = verif_clone_block_id(&implicitly_finalized);`
+        let ghost g2 = *self;
+after `FinalizationStatus::ImplicitlyFinalized(block_hash.clone()), );`
+        proof {
+            assert forall|s: Slot| #[trigger] self.st(s) == (if s == slot { Some(FinalizationStatus::ImplicitlyFinalized(block_hash)) } else { g2.st(s) }) by {}
+            assert(old == g2.st(slot));
+            assert(g2.st(slot) == pre.st(slot));
+        }
+before `if let Some(parent) = verif_cloned_block_id(self.parents.get(&implicitly_finalized))`
+        let ghost g3 = *self;
+        proof {
+            assert(g3.wf_base());
+            assert forall|s: Slot| s.0 < implicitly_finalized.0.0 implies #[trigger] g3.st(s) == pre.st(s) by { let _ = g2.st(s); let _ = pre.st(s); }
+            assert forall|s: Slot| s.0 >= source_slot.0 implies #[trigger] g3.st(s) == pre.st(s) by { let _ = g2.st(s); let _ = pre.st(s); }
+        }
+after `self.handle_implicitly_finalized_past_notarized_siblings(implicitly_finalized.0, parent, event);`
+        proof {
+            assert forall|s: Slot| s.0 >= source_slot.0 implies self.st(s) == #[trigger] pre.st(s) by { let _ = g3.st(s); }
+            assert(fin_hash(self.st(implicitly_finalized.0)) == Some(implicitly_finalized.1)) by { let _ = g3.st(implicitly_finalized.0); }
+        }
+@*/
+
+/*@ extract src/consensus/pool/finality_tracker.rs :: impl FinalityTracker/fn mark_notarized
+as mark_notarized_beside_an_implicitly_finalized_sibling
+props C08
+safety-asserts obligations
+ret r
+requires
+        old(self).wf(),
+        block.0.0 < u64::MAX,
+        block.0.0 >= old(self).first_unpruned_slot.0,
+        old(self).st(block.0) matches Some(FinalizationStatus::ImplicitlyFinalized(_)),
+ensures
+        // [C08.notarized_sibling_of_the_finalized_chain_is_no_safety_violation] the late notarization certificate of a sibling of
+        // an implicitly finalized block is no violation either: no assertion fires, the slot keeps its decision
+        final(self).st(block.0) == old(self).st(block.0),
+        event_is_default(r),
+before `let old = self .status .insert(*slot, FinalizationStatus::Notarized(block_hash.clone()));`
+        let ghost pre = *self;
+after `let old = self .status .insert(*slot, FinalizationStatus::Notarized(block_hash.clone()));`
+        proof {
+            assert forall|s: Slot| #[trigger] self.st(s) == (if s == *slot { Some(FinalizationStatus::Notarized(*block_hash)) } else { pre.st(s) }) by {}
+            assert(old == pre.st(*slot));
+        }
+@*/
+
 /*@ extract src/consensus/pool/finality_tracker.rs :: impl FinalityTracker/fn handle_finalized_block
 props C08
 rewrite*[R9] `finalized.clone()` => `verif_clone_block_id(&finalized)`
